@@ -2,7 +2,7 @@ from . import COMMON_TB, NOTE
 
 PROP = {
     "modules": ["Proofs.C13"],
-    "streams": [{"name": "tw"}],
+    "streams": [{"name": "tw"}, {"name": "hyphens"}],
     "rule": "tw: (1) every operation list of length<=5 (quick) / 6 (thorough) over {TrimLeft, TrimRight, Flush, Write of "
             "'', ' ', 'x', ' x', 'x ', '\\n '}; (2) every operation list of length<=3 (quick) / 4 (thorough) over "
             "TrimLeft, TrimRight, Flush and Write of every string of at most two units over {space, newline, NBSP, 'x', "
